@@ -5,10 +5,12 @@
 #![allow(unused_imports)]
 #[macro_use]
 pub mod util;
+pub mod c06;
 pub mod c13;
 
 pub fn harnesses() -> Vec<(&'static str, fn())> {
     let mut v: Vec<(&'static str, fn())> = vec![];
+    v.extend(c06::LIST.iter().cloned());
     v.extend(c13::LIST.iter().cloned());
     v
 }
